@@ -16,10 +16,17 @@ import (
 type TestOnlyViolation struct {
 	Pos         token.Pos
 	TestOnlyObj string // Name of the @testonly object being used
+	ObjPkgPath  string // Package path of the @testonly type (type usages only)
 	Kind        annotations.TestOnlyKind
 	UsedInFile  string // File where @testonly object is used
 	Reason      string
 	Code        string // Error code from codes package
+}
+
+// typeKey identifies the used type for the once-per-file rule: types of
+// different packages may share a name and are distinct types.
+func (v TestOnlyViolation) typeKey() string {
+	return v.ObjPkgPath + "." + v.TestOnlyObj
 }
 
 // GetCode returns the error code for this violation
